@@ -5,7 +5,7 @@ CONSTANTS
   B = 3
   MaxFail = 1
   MaxCancel = 0
-  Defects = {"LateSubmit"}
+  Defects = {}
   MDefects = {}
   RankOf <- Ranks
 INVARIANTS MdRestored
